@@ -217,7 +217,10 @@ Proof.
   destruct (sub_in_place_spec w w_pos t1a (cs12 ++ [cw12]) ltac:(rewrite app_length; cbn [length]; flia) Wt1a W12' _ _ E9) as (Lt1b & Wt1b & Vt1b).
   rewrite V12', Vt1a in Vt1b. rewrite Lt1a in Lt1b.
   pose proof (value_bounds w w_pos t1b Wt1b) as Bt1b. unfold len in Bt1b, Vt1b. rewrite Lt1b in Bt1b. rewrite Lt1a in Vt1b. rewrite Pm in Bt1b, Vt1b.
-  destruct borrow; cbn [b2z] in Vt1b; [exfalso; nia|].
+  destruct borrow; cbn [b2z] in Vt1b.
+  { exfalso. assert (P16 : 16 * (A2 * B2) <= (A0 + 2 * A1 + 4 * A2) * (B0 + 2 * B1 + 4 * B2)) by (clear - Ba0 Ba1 Ba2 Bb0 Bb1 Bb2; nia).
+    assert (Q0 : 0 <= A0 * B0) by (clear - Ba0 Bb0; nia). assert (Q2 : 0 <= A2 * B2) by (clear - Ba2 Bb2; nia).
+    clear - Vt1b Bt1b P16 Q0 Q2. lia. }
   (* ---- V(1) *)
   destruct (eval02_spec a0 a2 Wa0 Wa2 ltac:(flia)) as (L02a & W02a & V02a).
   destruct (eval02_spec b0 b2 Wb0 Wb2 ltac:(flia)) as (L02b & W02b & V02b).
@@ -276,12 +279,12 @@ Proof.
       destruct (add_mul_word_same_len_spec w w_ge t1b 2 cev ltac:(flia) Wt1b Wcev ltac:(flia) _ _ E16) as (Lc' & Wc' & Bk & Vc').
       pose proof (value_bounds w w_pos t1c Wc') as Bc'. rewrite (len_eq t1c t1b Lc') in Bc'. unfold len in Bc', Vc'. rewrite Lt1b, Pm in Bc', Vc'.
       assert (k = 0) by (clear - Vc' S6 Bc' Bk C0 C2 C3 C4 HB2 HX; nia). subst k.
-      exists t1c. split; [reflexivity|]. split; [lia|]. split; [exact Wc'|]. clear - Vc' S6. lia.
+      exists t1c. split; [reflexivity|]. split; [rewrite Lc'; exact Lt1b|]. split; [exact Wc'|]. clear - Vc' S6. lia.
     - destruct (sub_mul_word_same_len_in_place w t1b 2 cev) as [t1c k] eqn:E16.
       destruct (sub_mul_word_same_len_spec w w_ge t1b 2 cev ltac:(flia) Wt1b Wcev ltac:(flia) _ _ E16) as (Lc' & Wc' & Bk & Vc').
       pose proof (value_bounds w w_pos t1c Wc') as Bc'. rewrite (len_eq t1c t1b Lc') in Bc'. unfold len in Bc', Vc'. rewrite Lt1b, Pm in Bc', Vc'.
       assert (k = 0) by (clear - Vc' S6 Bc' Bk C0 C2 C3 C4 HB2 HX; nia). subst k.
-      exists t1c. split; [reflexivity|]. split; [lia|]. split; [exact Wc'|]. clear - Vc' S6. lia. }
+      exists t1c. split; [reflexivity|]. split; [rewrite Lc'; exact Lt1b|]. split; [exact Wc'|]. clear - Vc' S6. lia. }
   destruct Ht1c as (t1c & E16 & Lt1c & Wt1c & Vt1c). rewrite E16. cbn [Z.eqb negb].
   (* exact divisions *)
   assert (Vt2b' : val t2b = (c0 + q2 + c4') * 2) by (clear - Vt2b; lia).
